@@ -475,6 +475,409 @@ def analyse_send(ctx, Hr):
         ctx.violate("C05.guard", W(), fn, "no size guard `len(%s) >= 256**H -> raise` dominates the header and payload writes" % P)
 
 
+# =====================================================================================================================
+# symbolic one-iteration analysis (sa/symbuf.py): shape-independent replacement of the structural receive / send rules
+# =====================================================================================================================
+def _prop_enabled(repo):
+    cls = repo.cls(FILE, CLS)
+    a = alts(Evaluator(repo, cls.module, cls).class_const(cls, "PROP_ENABLED"))
+    return a[0] if a else None
+
+
+def _buffer_attr(repo):
+    """the accumulation buffer: the attribute the constructor binds to bytearray() / bytes"""
+    cls = repo.cls(FILE, CLS)
+    init = cls.methods.get("__init__")
+    names = []
+    for n in ast.walk(init) if init else []:
+        if isinstance(n, ast.Assign) and is_self_attr(n.targets[0]) and isinstance(n.value, ast.Call) and unparse(n.value.func) in ("bytearray", "bytes"):
+            names.append(n.targets[0].attr)
+    return names[0] if len(names) == 1 else None
+
+
+def _sym_hooks(sym):
+    def tag(env):
+        if sym.decodes:
+            sym.decodes[-1].setdefault("fn", env.get("@fname"))
+
+    def unpack(itp, recv, a, k, env, d, e):
+        if len(a) == 2 and a[0][0] == "c":
+            r = sym.decode_unpack(a[0][1], a[1])
+            tag(env)
+            return r
+        return None
+
+    def from_bytes(itp, recv, a, k, env, d, e):
+        order = a[1] if len(a) > 1 else k.get("byteorder")
+        signed = k.get("signed", ("c", False))
+        if a and order is not None and order[0] == "c" and signed[0] == "c":
+            r = sym.decode_from_bytes(a[0], order[1], signed[1])
+            tag(env)
+            return r
+        return None
+    return {"ext:*.unpack": unpack, "ext:*.unpack_from": unpack, "ext:*.from_bytes": from_bytes}
+
+
+def sym_receive(repo, enabled=True, up_raises=False, method="receive", scripted=None):
+    """all path classes of one generic invocation of receive: the buffer holds L0 unread bytes starting at position P of the
+    byte stream, the chunk brings C0 more; inside the loop one generic iteration is executed (integer locals the loop
+    assigns are arbitrary).  -> list of records, or raises Budget"""
+    from ..absint import Interp, enumerate_cells, _Raise, flat_effects
+    from ..layers import LayerRunner
+    from ..symbuf import SymExt, Buf
+    cls = repo.cls(FILE, CLS)
+    battr = _buffer_attr(repo)
+    PROP = _prop_enabled(repo)
+
+    def run(cell, domains):
+        sym = SymExt()
+        runner = LayerRunner(repo, {PROP: enabled})
+        hooks = runner.hooks()
+        hooks.update(_sym_hooks(sym))
+        if up_raises:
+            up0 = hooks["method:toUpper"]
+
+            def failing_up(itp, recv, a, k, env, d, e):
+                up0(itp, recv, a, k, env, d, e)
+                raise _Raise(("ext", "HandlerError", []), "the layer above raises")
+            hooks["method:toUpper"] = failing_up
+        it = Interp(repo, cell, domains, hooks=hooks)
+        it.sym = sym
+        it.layer_base = runner.base
+        layer = runner.make_layer(it, cls)
+        buf = Buf("S", {"P": 1}, {"P": 1, "L0": 1})
+        if battr is not None:
+            layer[1].fields[battr] = ("bufobj", buf)
+        chunk = ("bufobj", Buf("S", {"P": 1, "L0": 1}, {"P": 1, "L0": 1, "C0": 1}))
+        if method != "receive":
+            # a step helper is analysed on its own: the buffer already holds everything received so far
+            buf.end = {"P": 1, "L0": 1, "C0": 1}
+        calls = []
+        if scripted is not None:
+            name_, values = scripted
+
+            def step(itp, fn, owner, self_val, a, k):
+                calls.append(1)
+                return values[len(calls) - 1] if len(calls) <= len(values) else ("c", None)
+            it.hooks["fn:" + name_] = step
+            it.loop_unroll = len(values) + 2
+        it.effects[:] = []
+        res = {"raised": None, "ret": None, "step_calls": calls}
+        try:
+            res["ret"] = it.method_call(layer, method, [chunk] if method == "receive" else [], {}, {"@module": cls.module, "@owner": cls}, 0, None)
+        except _Raise as r:
+            res["raised"] = r.text
+        fin = layer[1].fields.get(battr) if battr else None
+        res.update({"conds": list(sym.conds), "ups": [e[1] for e in flat_effects(it.effects) if e[0] == "UP"], "loops": list(sym.loops), "decodes": list(sym.decodes),
+                    "final": fin[1].copy() if fin is not None and fin[0] == "bufobj" else None, "final_raw": fin, "notes": list(sym.notes) + list(it.notes), "havoc": dict(sym.havoc), "chunk": chunk})
+        return res, it
+    return [r for _c, r in enumerate_cells(run, {}, max_cells=256)], battr
+
+
+def analyse_receive_sym(ctx):
+    from ..absint import Budget
+    from ..symbuf import value_of, add, show_lin, to_lin
+    import itertools
+    repo = ctx.repo
+    fn = repo.method(FILE, CLS, "receive")
+    W = where(FILE, CLS + ".receive", fn.lineno)
+    try:
+        cells, battr = sym_receive(repo, True)
+        off_cells, _b = sym_receive(repo, False)
+    except Budget:
+        ctx.undecided("C05.peel", W, fn, "too many undecided tests in receive")
+        return None
+    if battr is None:
+        ctx.undecided("C05.indep", W, fn, "the accumulation buffer (an attribute bound to bytearray() by the constructor) was not identified")
+        return None
+    notes = sorted({n for r in cells for n in r["notes"]})
+    if notes:
+        ctx.undecided("C05.peel", W, fn, "receive uses the buffer in a way the symbolic model does not follow: " + "; ".join(notes[:2]))
+        return None
+    # ---- pass-through with segmentation off
+    okoff = all(len(r["ups"]) == 1 and r["ups"][0][0] == "bufobj" and r["ups"][0][1].start == {"P": 1, "L0": 1} and r["ups"][0][1].end == {"P": 1, "L0": 1, "C0": 1}
+                and r["final"] is not None and r["final"].start == {"P": 1} and r["final"].end == {"P": 1, "L0": 1} and not r["raised"] for r in off_cells)
+    ctx.check("C05.peel", okoff, W, "segmentation disabled: the chunk passes through", "with segmentation disabled the chunk must be passed up unchanged exactly once (and the buffer left alone)", "disabled branch passes the chunk through")
+    # ---- chunk independence: nothing depends on how the unread bytes are split between old buffer and new chunk
+    dep = []
+    for r in cells:
+        for (e, kind, t) in r["conds"]:
+            if e.get("L0", 0) != e.get("C0", 0):
+                dep.append("a decision tests %s" % show_lin(e))
+        for u in r["ups"]:
+            if u[0] != "bufobj":
+                dep.append("something other than a slice of the buffer is delivered")
+            elif any(x.get("L0", 0) != x.get("C0", 0) for x in (u[1].start, u[1].end)):
+                dep.append("a delivered slice is cut relative to the chunk boundary")
+        f = r["final"]
+        if f is None or f.end != {"P": 1, "L0": 1, "C0": 1} or f.start.get("L0", 0) != f.start.get("C0", 0):
+            dep.append("the buffer kept for the next call is %s" % (f,))
+    ctx.check("C05.indep", not dep, W, "decisions, deliveries and the kept buffer depend on old bytes + chunk only as a whole",
+              "the received chunk is used other than by appending it to the accumulation buffer (output would depend on the chunking): " + "; ".join(sorted(set(dep))[:2]), "chunk only appended to self.%s" % battr)
+    ctx.check("C05.indep", all(any(x.get("C0") for x in [r["final"].end] if r["final"] is not None) for r in cells), W, "chunk appended on every path", "a path does not append the chunk to the buffer", "appended on every path")
+    # ---- header decode
+    decs = [d for r in cells for d in r["decodes"]]
+    if not decs:
+        ctx.violate("C05.arith", W, fn, "no path decodes a length header from the buffer")
+        return None
+    Hs = {d["view"].length().get(1) if set(d["view"].length()) <= {1} else None for d in decs}
+    badd = sorted({d["why"] for d in decs if not d["ok"]})
+    H = Hs.pop() if len(Hs) == 1 else None
+    ctx.check("C05.arith", not badd and H is not None and H > 0, W, "header decode (%s)" % sorted({d["kind"] for d in decs}),
+              "size is not decoded as a big-endian unsigned integer from exactly the first H bytes of the unread buffer: %s" % ("; ".join(badd) or "header widths %s" % Hs), "size = big-endian unsigned from the first %s unread bytes" % H)
+    if H is None or badd:
+        return None
+    ctx.units["C05.header_len_reader"] = H
+    pos_exprs = {tuple(sorted(d["view"].start.items(), key=lambda kv: str(kv[0]))) for d in decs}
+    helpers = {d.get("fn") for d in decs}
+    if len(pos_exprs) != 1 and len(helpers) == 1 and None not in helpers and "receive" not in helpers:
+        # the frame is detached by a step helper that receive calls repeatedly: the helper is the generic iteration, and
+        # receive is checked to deliver exactly what the helper hands out, in order, until it hands out nothing
+        step = helpers.pop()
+        try:
+            cells, _b = sym_receive(repo, True, method=step)
+        except Budget:
+            ctx.undecided("C05.peel", W, fn, "too many undecided tests in %s" % step)
+            return None
+        for r in cells:
+            rv = r["ret"]
+            r["ups"] = [rv] if rv is not None and rv[0] == "bufobj" else ([] if rv == ("c", None) else [("unk", "?")])
+            r["loops"] = [{"entered": True, "exit": "fallthrough" if r["ups"] else "break"}]
+        from ..symbuf import Buf as _Buf
+        A, Bv = ("bufobj", _Buf("S", {"P": 1, 1: 3}, {"P": 1, 1: 5})), ("bufobj", _Buf("S", {"P": 1, 1: 8}, {"P": 1, 1: 9}))
+        drv, _b = sym_receive(repo, True, scripted=(step, [A, Bv, ("c", None)]))
+        okdrv = all(len(r["ups"]) == 2 and r["ups"][0][0] == "bufobj" and r["ups"][0][1].start == A[1].start and r["ups"][0][1].end == A[1].end and r["ups"][1][1].start == Bv[1].start
+                    and len(r["step_calls"]) == 3 and not r["raised"] for r in drv)
+        ctx.check("C05.peel", okdrv, W, "receive delivers what %s detaches, in order, until nothing is left" % step,
+                  "receive must deliver every segment its step helper detaches, in order, and stop when the helper returns nothing (deliveries %s, helper calls %s)" % ([len(r["ups"]) for r in drv], [len(r["step_calls"]) for r in drv]),
+                  "each detached segment delivered once, in order")
+        decs = [d for r in cells for d in r["decodes"]]
+        pos_exprs = {tuple(sorted(d["view"].start.items(), key=lambda kv: str(kv[0]))) for d in decs}
+    if len(pos_exprs) != 1:
+        ctx.undecided("C05.arith", W, fn, "the header is read at different positions on different paths: %s" % [show_lin(dict(p)) for p in pos_exprs])
+        return None
+    pos = dict(pos_exprs.pop())
+    # ---- evaluation of every path class on a grid of symbol values (all tests are unit-coefficient linear inequalities)
+    syms = set()
+    for r in cells:
+        for (e, k, t) in r["conds"]:
+            syms |= {x for x in e if x != 1}
+        for d in r["decodes"]:
+            syms.add(d["sym"])
+    bigc = max([abs(c) for r in cells for (e, k, t) in r["conds"] for x, c in e.items()] + [1])
+    if any(abs(c) != 1 for r in cells for (e, k, t) in r["conds"] for x, c in e.items() if x != 1):
+        ctx.undecided("C05.arith", W, fn, "a test scales a symbolic quantity (non-unit coefficient): outside the grid argument")
+        return None
+    ssyms = sorted(x for x in syms if x.startswith("S"))
+    nsyms = sorted(x for x in syms if x.startswith("N_"))
+    R = H + bigc + 3
+    grid = {"P": (0, 2), "L0": range(0, R + 1), "C0": (0, 1, 3), "S": range(0, R + 1)}
+    problems = {"hold": [], "early": [], "payload": [], "advance": [], "spin": [], "oob": [], "ambig": []}
+    n_eval = 0
+    for P_, L0_, C0_, S_ in itertools.product(grid["P"], grid["L0"], grid["C0"], grid["S"]):
+        for Ns in itertools.product(range(0, 4), repeat=len(nsyms)):
+            asg = {"P": P_, "L0": L0_, "C0": C0_}
+            asg.update({x: S_ for x in ssyms})
+            asg.update(dict(zip(nsyms, Ns)))
+            posv = value_of(pos, asg)
+            U = P_ + L0_ + C0_ - posv
+            if U < 0:
+                continue               # the read position never lies beyond the bytes received so far
+            taken = [r for r in cells if all(((value_of(e, asg) >= 0) if k == ">=0" else (value_of(e, asg) == 0)) == t for (e, k, t) in r["conds"])]
+            if len(taken) != 1:
+                problems["ambig"].append("%d path classes for %s" % (len(taken), asg))
+                continue
+            r = taken[0]
+            n_eval += 1
+            lp = [l for l in r["loops"]]
+            delivered = [u for u in r["ups"] if u[0] == "bufobj"]
+            fstart = value_of(r["final"].start, asg) if r["final"] is not None else None
+            if r["decodes"] and U < H:
+                problems["oob"].append("the header is decoded with only %d unread byte(s)" % U)
+            complete = U >= H + S_
+            label = "unread=%d size=%d" % (U, S_)
+            if S_ == 0:
+                # an empty frame: either delivered (and consumed) or left for later - both keep the stream intact
+                if delivered and not (fstart == posv + H):
+                    problems["advance"].append(label)
+                continue
+            if complete:
+                if len(delivered) != 1 or len(r["ups"]) != 1:
+                    problems["hold"].append("%s: a complete frame is not delivered (%d deliveries)" % (label, len(r["ups"])))
+                    continue
+                lo, hi = value_of(delivered[0][1].start, asg), value_of(delivered[0][1].end, asg)
+                if (lo, hi) != (posv + H, posv + H + S_):
+                    problems["payload"].append("%s: delivers bytes [%d:%d) of the unread data instead of [%d:%d)" % (label, lo - posv, hi - posv, H, H + S_))
+                if fstart != posv + H + S_:
+                    problems["advance"].append("%s: the buffer afterwards starts %s bytes after the frame start instead of %d" % (label, None if fstart is None else fstart - posv, H + S_))
+                if not lp or lp[-1]["exit"] not in ("fallthrough", "continue"):
+                    problems["spin"].append("%s: after a delivery the loop is left (%s): further complete frames in the buffer are held back" % (label, lp[-1]["exit"] if lp else "no loop"))
+            else:
+                if r["ups"]:
+                    problems["early"].append("%s: an incomplete frame is delivered" % label)
+                    continue
+                if fstart != posv:
+                    problems["advance"].append("%s: nothing delivered but the buffer moves by %s" % (label, None if fstart is None else fstart - posv))
+                if lp and lp[-1]["exit"] in ("fallthrough", "continue"):
+                    problems["spin"].append("%s: the incomplete-frame branch loops back without new data" % label)
+    ctx.units["C05.grid_points"] = n_eval
+    if problems["ambig"]:
+        ctx.undecided("C05.peel", W, fn, "path classes do not partition the grid: " + problems["ambig"][0])
+        return H
+    ctx.check("C05.arith", not problems["hold"] and not problems["early"], W, "a frame is delivered exactly when it is complete (unread >= %d + size)" % H,
+              "completeness test must be (unread length) >= %d + size exactly (a complete frame would be held back or an incomplete one delivered): %s" % (H, "; ".join((problems["hold"] + problems["early"])[:2])),
+              "delivery iff unread >= %d + size (%d grid points)" % (H, n_eval))
+    ctx.check("C05.arith", not problems["payload"], W, "payload = unread[%d:%d+size]" % (H, H), "delivered payload must be the bytes [%d:%d+size) after the frame start: %s" % (H, H, "; ".join(problems["payload"][:2])), "payload = unread[%d:%d+size]" % (H, H))
+    ctx.check("C05.arith", not problems["advance"], W, "remainder = unread[%d+size:]" % H, "after a delivery exactly header + payload must be removed from the unread data, otherwise nothing: %s" % "; ".join(problems["advance"][:2]), "remainder = unread[%d+size:]" % H)
+    ctx.check("C05.arith", not problems["oob"], W, "header read only when %d bytes are unread" % H, "; ".join(sorted(set(problems["oob"]))[:2]), "header bytes available when decoded")
+    ctx.check("C05.peel", not problems["spin"], W, "loop continues after a delivery and stops on an incomplete frame", "; ".join(sorted(set(problems["spin"]))[:2]), "loop continues after a delivery; incomplete frame leaves the loop")
+    ctx.check("C05.peel", all(len(r["ups"]) <= 1 for r in cells), W, "one delivery per iteration", "an iteration delivers more than once", "single delivery per iteration")
+    one_loop = all(len([l for l in r["loops"]]) <= 1 for r in cells) and any(r["loops"] for r in cells)
+    ctx.check("C05.peel", one_loop, W, "frames are peeled in one loop", "frames must be peeled in one loop (coalesced frames would be held back)", "one peel loop")
+    ctx.check("C05.peel", not any(r["raised"] for r in cells), W, "no path raises", "a path through receive raises: %s" % [r["raised"] for r in cells if r["raised"]][:1], "no exception on any path class")
+    return H
+
+
+def drain_after_failure(ctx, rule="C12.drain"):
+    """a delivery that raises must not leave the delivered frame at the head of the buffer: receive is symbolically executed
+    with the layer above raising on the first delivery; when the exception has left receive the kept buffer must start
+    after that frame (otherwise the same frame is delivered again with the next chunk, for ever)"""
+    from ..absint import Budget
+    from ..symbuf import value_of, show_lin, add
+    import itertools
+    repo = ctx.repo
+    fn = repo.method(FILE, CLS, "receive")
+    W = where(FILE, CLS + ".receive", fn.lineno)
+    try:
+        cells, battr = sym_receive(repo, True, up_raises=True)
+    except Budget:
+        ctx.undecided(rule, W, fn, "too many undecided tests in receive")
+        return
+    notes = sorted({n for r in cells for n in r["notes"]})
+    if notes or battr is None:
+        ctx.undecided(rule, W, fn, "receive uses the buffer in a way the symbolic model does not follow: " + ("; ".join(notes[:2]) or "buffer attribute not identified"))
+        return
+    bad = []
+    n = 0
+    for r in cells:
+        if not r["ups"] or not r["decodes"]:
+            continue
+        n += 1
+        u = r["ups"][0]
+        d = r["decodes"][0]
+        f = r["final"]
+        if f is None or u[0] != "bufobj":
+            bad.append("the buffer after the failure is not followed")
+            continue
+        # the kept buffer must start at (or after) the end of the delivered frame: final.start - delivered.end == 0
+        diff = add(f.start, u[1].end, -1)
+        if diff != {}:
+            # still symbolic or a constant other than 0: evaluate sign on a few assignments
+            still = add(f.start, d["view"].start, -1)
+            bad.append("after the failed delivery the kept buffer starts %s byte(s) after the frame start: the frame handed up is still (partly) in the buffer" % (show_lin(still) or "0"))
+    if not n:
+        ctx.undecided(rule, W, fn, "no delivering path class found")
+        return
+    ctx.check(rule, not bad, W, "a frame whose delivery raises is consumed (%d delivering path classes)" % n,
+              "the element is delivered upward before it is removed from the buffer: if the delivery raises, the same element is delivered again on the next call and everything behind it is stuck (%s)" % "; ".join(sorted(set(bad))[:2]),
+              "consumed before (or whatever happens after) it is delivered")
+    ctx.check(rule, all(r["raised"] for r in cells if r["ups"]), W, "the failure reaches the caller", "an exception handler inside receive swallows the failure of a delivery (the loop resumes)", "no handler resumes the loop: a failure leaves it")
+
+
+def sym_send(repo, n, enabled):
+    """abstract execution of send for a payload of exactly n bytes -> (writes, raised)"""
+    from ..absint import Interp, _Raise, flat_effects
+    from ..layers import LayerRunner
+    from ..symbuf import SymExt, Buf
+    cls = repo.cls(FILE, CLS)
+    PROP = _prop_enabled(repo)
+    sym = SymExt()
+    runner = LayerRunner(repo, {PROP: enabled})
+    hooks = runner.hooks()
+
+    def pack(itp, recv, a, k, env, d, e):
+        if a and all(x[0] == "c" for x in a):
+            try:
+                return ("c", struct.pack(*[x[1] for x in a]))
+            except struct.error as x:
+                raise _Raise(("ext", "struct.error", []), "struct.error: %s" % x)
+        return None
+    hooks["ext:*.pack"] = pack
+    it = Interp(repo, {}, {}, hooks=hooks)
+    it.sym = sym
+    it.layer_base = runner.base
+    layer = runner.make_layer(it, cls)
+    data = ("bufobj", Buf("D", {}, {1: n}))
+    it.effects[:] = []
+    raised = None
+    try:
+        it.method_call(layer, "send", [data], {}, {"@module": cls.module, "@owner": cls}, 0, None)
+    except _Raise as r:
+        raised = r.text
+    return [e[1] for e in flat_effects(it.effects) if e[0] == "DOWN"], raised, data, sym.notes + it.notes
+
+
+def analyse_send_sym(ctx, Hr):
+    """send, abstractly executed for payload lengths at every byte-length boundary: with segmentation on the header is the
+    big-endian length in exactly as many bytes as the reader consumes, written immediately before the untouched payload;
+    with segmentation off only the payload is written; a payload whose length does not fit the header is refused before
+    anything is written"""
+    from ..absint import NeedAtom, Budget
+    repo = ctx.repo
+    fn = repo.method(FILE, CLS, "send")
+    W = where(FILE, CLS + ".send", fn.lineno)
+    H = Hr if Hr else 3
+    fits = sorted({0, 1, 2, 255, 256, 257, 65535, 65536, 65537, 256 ** H - 2, 256 ** H - 1})
+    toobig = sorted({256 ** H, 256 ** H + 1, 256 ** H + 255, 2 ** 31, 2 ** 32 - 1, 2 ** 32, 2 ** 32 + 5})
+    bad_hdr, bad_pay, bad_guard, bad_off, unknown = [], [], [], [], None
+    Hw = set()
+    try:
+        for n in fits + toobig:
+            for enabled in (True, False):
+                writes, raised, data, notes = sym_send(repo, n, enabled)
+                if notes:
+                    unknown = notes[0]
+                    break
+                if n in toobig:
+                    if not raised or writes:
+                        bad_guard.append("a payload of %d bytes (segmentation %s): %s" % (n, "on" if enabled else "off", "%d write(s) before/without the refusal" % len(writes) if writes else "is not refused"))
+                    continue
+                if raised:
+                    bad_guard.append("a payload of %d bytes, which fits the header, is refused (%s)" % (n, raised[:40]))
+                    continue
+                pay_ok = bool(writes) and writes[-1][0] == "bufobj" and writes[-1][1] is data[1]
+                if not pay_ok:
+                    bad_pay.append("payload of %d bytes: last write is not the unmodified payload" % n)
+                if not enabled:
+                    if len(writes) != 1:
+                        bad_off.append("payload of %d bytes, segmentation off: %d writes" % (n, len(writes)))
+                    continue
+                if len(writes) != 2 or writes[0][0] != "c" or not isinstance(writes[0][1], (bytes, bytearray)):
+                    bad_hdr.append("payload of %d bytes: %d write(s), header %s" % (n, len(writes), writes[0][0] if writes else None))
+                    continue
+                hdr = bytes(writes[0][1])
+                Hw.add(len(hdr))
+                if hdr != n.to_bytes(len(hdr), "big") if 256 ** len(hdr) > n else True:
+                    bad_hdr.append("payload of %d bytes gets header %s" % (n, hdr.hex()))
+            if unknown:
+                break
+    except (NeedAtom, Budget) as x:
+        unknown = "undecided test: %s" % x
+    if unknown:
+        ctx.undecided("C05.send", W, fn, "send could not be followed: " + unknown)
+        return
+    ctx.check("C05.send", not bad_hdr, W, "header = big-endian length, written first", "header must be the big-endian length of the payload truncated to its low-order bytes: " + "; ".join(bad_hdr[:2]), "header = big-endian len(payload) (%d lengths)" % len(fits))
+    ctx.check("C05.send", not bad_pay, W, "payload written on every normal path, unmodified, last", "; ".join(bad_pay[:2]), "payload written on every normal path")
+    ctx.units["C05.header_len_writer"] = sorted(Hw)
+    ctx.check("C05.send", Hw == {H}, W, "header width %s" % sorted(Hw), "writer emits a %s-byte header but the reader consumes %d" % (sorted(Hw), H), "writer and reader agree on a %d-byte header" % H)
+    ctx.check("C05.send", not bad_off, W, "header only when segmentation is enabled", "header is written although segmentation is not enabled (or not only then): " + "; ".join(bad_off[:2]), "header only when segmentation is enabled")
+    ctx.check("C05.send", not bad_hdr and not bad_pay, W, "header immediately followed by its payload", "header is not immediately followed by its payload on every path", "header precedes its payload on every path")
+    ctx.check("C05.send", not bad_hdr, W, "enabled path always writes the header", "with segmentation enabled a path reaches the payload write without the header", "enabled path always writes the header")
+    ctx.check("C05.guard", not bad_guard, W, "payloads with len >= 256**%d are refused before any write" % H,
+              "no size guard `len(data) >= 256**H -> raise` dominates the header and payload writes: " + "; ".join(bad_guard[:2]), "payloads with len >= 256**%d are refused before any write; smaller ones pass" % H)
+
+
+
 def rule_state(ctx):
     from ..state import per_instance_state
     cls = ctx.repo.cls(FILE, CLS)
@@ -487,15 +890,15 @@ def rule_state(ctx):
 
 
 def run(ctx):
-    ctx.rule("C05.indep", "chunk parameter flows only into the accumulation buffer; decisions read the buffer", floor=3)
-    ctx.rule("C05.peel", "peel loop shape: single dominated delivery, loop continues, incomplete frame leaves", floor=5)
-    ctx.rule("C05.arith", "size decode, completeness test, payload and remainder slices are exact", floor=4)
-    ctx.rule("C05.send", "header format/width/order/conditions", floor=6)
+    ctx.rule("C05.indep", "decisions, deliveries and the kept buffer depend on (old unread bytes + chunk) only as a whole (symbolic execution: coefficients of L0 and C0 agree everywhere)", floor=2)
+    ctx.rule("C05.peel", "one generic loop iteration, symbolically executed: single delivery, loop continues after it, incomplete frame leaves; pass-through when disabled", floor=5)
+    ctx.rule("C05.arith", "size decode; delivery iff unread >= H + size; payload and remainder exact - every path class evaluated on a grid of symbol values", floor=5)
+    ctx.rule("C05.send", "send abstractly executed at every byte-length boundary: header bytes, width, order, only when enabled", floor=6)
     ctx.rule("C05.guard", "oversize refused before any write", floor=1)
     ctx.rule("C05.state", "the accumulation buffer (every attribute mutated in place) is bound per instance by the constructor", floor=1)
     ctx.assume("bytearray slicing / struct big-endian semantics of CPython")
-    H = ctx.guarded("C05.receive", analyse_receive, ctx)
-    ctx.guarded("C05.send", analyse_send, ctx, H)
+    H = ctx.guarded("C05.receive", analyse_receive_sym, ctx)
+    ctx.guarded("C05.send", analyse_send_sym, ctx, H)
     ctx.guarded("C05.state", rule_state, ctx)
     # 'each length header immediately followed by its own payload' under concurrent senders: C11.hoh / C11.frame adopted
     from . import c11
